@@ -23,7 +23,30 @@ def check(ctx):
     cfgs = lexcommon.configs(ctx)
     summ = lexcommon.run_lex(ctx, cfgs, envs=[None])
     typed = typed_prefixes(ctx)
-    return lexcommon.finish(ctx, summ, "model_checking", extra_cov={"typed_prefixes": typed})
+    sweep = byte_sweep(ctx)
+    return lexcommon.finish(ctx, summ, "model_checking", extra_cov={"typed_prefixes": typed, "byte_sweep": sweep})
+
+
+def byte_sweep(ctx):
+    """GenLex's Recover mode over all 256 byte values: every byte inserted at every gap between tokens after 0..5 blanks, decoded
+    into typed destinations (struct framing, slices, maps, RawMessage capture), interface{} and Valid; accepted exactly when
+    encoding/json accepts."""
+    known = vf.load_known(ctx.prop)
+    sfile = os.path.join(ctx.work, "lexsweep.json")
+    vf.vh(ctx, ["lexsweep", "-out", sfile, "-seed", ctx.seed], timeout=3000)
+    s = json.load(open(sfile))
+    recs = {}
+    for b in s.get("bad") or []:
+        recs.setdefault(b["sig"], b)
+    for sig, n in (s.get("bad_by_sig") or {}).items():
+        b = dict(recs.get(sig) or {"sig": sig})
+        fid = vf.match_known(known, b)
+        if fid:
+            ctx.known_hits[fid] = ctx.known_hits.get(fid, 0) + n
+        else:
+            vf.violation(ctx, "%s: %s with the byte 0x%02x inserted after %s blank(s): %r (%d such cases)" % (
+                b.get("api"), b.get("kind"), b.get("byte", 0), b.get("lead"), (b.get("text") or "")[:120], n), b)
+    return {k: s[k] for k in ("cases", "evals", "gaps", "valid_variants", "wall_s")}
 
 
 def typed_prefixes(ctx):
